@@ -266,4 +266,51 @@ def _agg_local(w, rv):
     return 0
 
 
-RULES = [("R1", r1, None), ("R2", r2, None), ("R3", r3, None), ("R4", r4, None)]
+def r5(F, R):
+    """"... positioned after the Started event of the step or hook that emitted it": a necessary structural condition is
+    that the routine running a step / hook sends that step's / hook's Started event BEFORE it starts polling the
+    instrumented user future — otherwise the future's logs (forwarded while it runs and at its span close) precede Started."""
+    rs, root, tree = roles.attempt_tree(F)
+    emit_fns = roles.emitters(F, tree)
+    n = 0
+    for b, s, t in instrument_sites(F, tree):
+        ssl = A.slice_back(b, [t["args"][1]], stop_calls=[r"Future::poll$"])
+        span_calls = [(cs, ct) for cs, ct in ssl.calls if re.search(r"(step_span|hook_span)$", callee_path(ct) or "")]
+        if len(span_calls) != 1:
+            continue
+        kind = callee_path(span_calls[0][1]).rsplit("::", 1)[-1]
+        hk = {rv["variant"] for _, rv in ssl.aggs if rv.get("adt") == "event::HookType"}
+        name = kind + ("/" + "+".join(sorted(hk)) if hk else "")
+        aws = []
+        for a in A.awaits(b):
+            if a.src_op is None:
+                continue
+            asl = A.slice_back(b, [a.src_op], stop_calls=[r"Future::poll$"])
+            if s in asl.sites and not asl.has_call(r"wait_for_span_close$"):
+                aws.append(a)
+        if len(aws) != 1:
+            continue
+        n += 1
+        want = "event::Step::Started" if kind == "step_span" else "event::Hook::Started"
+        started = []
+        for cs, ct in b.calls():
+            cb = F.callee_body(ct)
+            if cb is None or cb.key not in emit_fns or len(ct["args"]) < 2:
+                continue
+            tags, sl = A.event_tags(F, b, ct["args"][1])
+            hts = {rv["variant"] for _, rv in sl.aggs if rv.get("adt") == "event::HookType"}
+            if want in tags and (kind == "step_span" or hts == hk):
+                started.append(cs)
+            elif kind == "step_span" and any(callee_is(c2, r"ops::FnOnce::call_once$") and re.match(r"^[A-Z]\w*$", (op_fn(c2["func"]) or {}).get("self", "")) for _, c2 in sl.calls):
+                # run_step receives the three event constructors as FnOnce parameters; that the one sent first is
+                # `Step::Started` at every call site is C02.R2's rule — here: an emission precedes the user future
+                started.append(cs)
+        ok = any(b.dominates(cs, aws[0].poll_site) for cs in started)
+        R.check(ok, f"started-before-user-code/{name}", aws[0].poll_site, f"{want.split('::', 1)[1]} is sent before the instrumented future is polled",
+                f"the routine polls the instrumented {name} future without having sent its Started event first: logs emitted by that "
+                f"{'hook' if kind == 'hook_span' else 'step'} are delivered BEFORE its Started event")
+    R.check(n == 3, "started-before-user-code/routines", None, "step, before hook, after hook", f"{n} step/hook routines with an instrumented user future")
+    R.floor(3)
+
+
+RULES = [("R1", r1, None), ("R2", r2, None), ("R3", r3, None), ("R4", r4, None), ("R5", r5, None)]
